@@ -213,6 +213,9 @@ def check_sensors(model, rep):
 
 
 def check(model, rep):
+    # hidden state Python keeps outside the objects (not modelled by the evaluator): reported before anything else is evaluated
+    from checks.solver_common import package_lints as _package_lints
+    _package_lints(model, rep, 'C16.hidden-state', ('/stop_condition/', '/sensors/', '/solver.py'))
     rep.explain('C16: in the solver IR every stepping-loop body path with a stop condition evaluates it exactly once, as the '
                 'last event after the recorder, and the truth of that single evaluation decides break/continue; not evaluated at '
                 't = 0; StopCondition.check_condition is pure and returns operator(sensor.get_value(), threshold); the five '
